@@ -54,6 +54,17 @@ values, (value, sd) given as a list-like, D = 1 given as plain numbers, a boolea
 (N,) vs (N, 1) column.  The property must break for such a spelling while the canonical spelling stays bit-identical.
 
 """,
+"subtle": """## Focus for this task
+
+Dozens of regressions have already been seeded for this property (single-site slips, history-dependent changes, caches,
+state leaks, option-dependent and numerical/boundary slips, dtype/shape slips) and nearly all were detected by an
+extensive monitoring suite that runs thousands of randomized optimisations with every option varied, all noise modes,
+constraints, bound geometries, fault injection and process history.  Your job is to find a change that such a suite is
+MOST LIKELY TO MISS: think about which circumstances randomized workloads reach only with negligible probability, or
+which consequences are invisible unless one looks at exactly the right quantity.  It must still be a clear violation of
+the property as stated (not a matter of interpretation) and your demo must show it deterministically.
+
+""",
 "numeric": """## Focus for this task
 
 Your change must be a NUMERICAL / BOUNDARY slip: a strict comparison turned non-strict (or the reverse), a tolerance
